@@ -273,9 +273,21 @@ def build(spec, cap=None, memory=None, location="spill"):
         kw = dict(slot_memory_limit=memory, slot_memory_location=location)
     b.composition = fm.Composition([objs[i] for i in order], print_log=False, log_level=logging.CRITICAL + 10, **kw)
     link_order = spec.get("link_order") or list(range(len(spec["links"])))
+    trunk_end = {}
+    for tid, tr in sorted((spec.get("trunks") or {}).items()):
+        # a trunk is a chain of branch-capable adapters below an output that several links share
+        x = b.comps[tr["src"][0]].outputs[f"out{tr['src'][1]}"]
+        for pos, a in enumerate(tr["chain"]):
+            ada = mk_adapter(a, f"T{tid}.a{pos}:{a[0]}")
+            b.adapters.append((f"T{tid}", pos, a, ada))
+            x = x >> ada
+        trunk_end[str(tid)] = x
     for li in link_order:
         ln = spec["links"][li]
-        x = b.comps[ln["src"][0]].outputs[f"out{ln['src'][1]}"]
+        if ln.get("trunk") is not None:
+            x = trunk_end[str(ln["trunk"])]
+        else:
+            x = b.comps[ln["src"][0]].outputs[f"out{ln['src'][1]}"]
         for pos, a in enumerate(ln["chain"]):
             ada = mk_adapter(a, f"L{li}.a{pos}:{a[0]}")
             b.adapters.append((li, pos, a, ada))
